@@ -613,12 +613,12 @@ fn part_b_payloads(ctx: &Ctx, rep: &mut Report) {
     let mut lens: Vec<usize> = (0..=300).collect();
     lens.extend(1265..=1295);
     lens.extend([4096, 63990, 63999, 64000, 64001, 65535, 65536, 100_000]);
-    let radices = [lens.len() as u64, 3, 2];
+    let radices = [lens.len() as u64, 3, 2, 2];
     let n = product(&radices);
     ctx.family(
         rep,
         "B8-payload-lengths",
-        "payload length 0..=300 (every value), 1265..=1295, 4096, around 64000, 65535, 65536, 100000 x options {none, one short, one of 269 bytes} x payload first byte {0xFF, other}",
+        "payload length 0..=300 (every value), 1265..=1295, 4096, around 64000, 65535, 65536, 100000 x options {none, one short, one of 269 bytes} x payload first byte {0xFF, other} x code {2.05, 0.00}",
         n,
         true,
         |i, rep| {
@@ -632,10 +632,22 @@ fn part_b_payloads(ctx: &Ctx, rep: &mut Report) {
                 1 => vec![(11u32, b"p".to_vec())],
                 _ => vec![(35u32, pattern(269, 4))],
             };
-            let m = RefMsg { version: 1, mtype: 0, token: vec![9], code: 0x45, mid: 0x0101, options, payload };
+            // code 0.00: the payload is never sent, however long it is
+            let m = RefMsg { version: 1, mtype: 0, token: vec![9], code: if d[3] == 1 { 0x00 } else { 0x45 }, mid: 0x0101, options, payload };
             run_case("B8-payload-lengths", i, n, &m, ctx, rep);
         },
     );
+}
+
+/// k option instances (same number 11, or numbers 11, 12, ...) whose value lengths add up to `total`.
+pub fn many_instances(k: usize, total: usize, distinct: bool) -> RefMsg {
+    let options = (0..k)
+        .map(|j| {
+            let len = total / k + if j < total % k { 1 } else { 0 };
+            (if distinct { 11 + j as u32 } else { 11 }, pattern(len, j as u8))
+        })
+        .collect();
+    RefMsg { version: 1, mtype: 0, token: vec![4, 2], code: 0x01, mid: 0x3141, options, payload: vec![] }
 }
 
 fn part_b_many(ctx: &Ctx, rep: &mut Report) {
@@ -670,6 +682,20 @@ fn part_b_many(ctx: &Ctx, rep: &mut Report) {
             }
             let m = RefMsg { version: 1, mtype: 1, token: if d[6] == 1 { pattern(8, 2) } else { vec![] }, code: 0x45, mid: 7, options: opts, payload: vec![1] };
             run_case("B9-six-options", i, n, &m, ctx, rep);
+        });
+    }
+    // B11: n instances of one option number whose value sizes add up to every total 0..=300 (windows around any
+    // internal buffer size a codec might use), and the same with n distinct numbers
+    {
+        let ns: [usize; 7] = [1, 2, 3, 5, 6, 10, 16];
+        let radices = [ns.len() as u64, 301, 2];
+        let n = product(&radices);
+        ctx.family(rep, "B11-value-size-totals", "n in {1,2,3,5,6,10,16} option instances (all the same number / consecutive numbers) whose value lengths add up to every total 0..=300", n, true, |i, rep| {
+            let d = decode(i, &radices);
+            let k = ns[d[0] as usize];
+            let total = d[1] as usize;
+            let m = many_instances(k, total, d[2] == 1);
+            run_case("B11-value-size-totals", i, n, &m, ctx, rep);
         });
     }
     // B10: byte values - every byte value as the content of option values, token and payload
